@@ -39,6 +39,12 @@ Theorem source_nan_inf_refused :
 Proof. rewrite !source_convert2es6. exact num_nan_inf_refused_proof. Qed.
 Print Assumptions source_nan_inf_refused.
 
+(* `fvalue = float(value)` is guarded: an int too large for a double is refused with ValueError
+   (Jcs.float_overflows / canon_refuses_too_large_int transcribe this) *)
+Theorem source_float_overflow_refused : gen_float_overflow_guard = true.
+Proof. reflexivity. Qed.
+Print Assumptions source_float_overflow_refused.
+
 (* ---- Canonicalize.py ------------------------------------------------------------------------- *)
 Theorem source_sort_key :
   cs_sort_key src_canon = KeyUtf16BE /\ cs_sort_guard_sort_keys src_canon = true /\ cs_canonicalize_sort_keys src_canon = true.
